@@ -683,7 +683,12 @@ func (w *weaver) rewriteCall(call *ast.CallExpr, fail func(ast.Node, string, ...
 	case "sync.Pool":
 		// Get/Put never block and carry no ordering the simulation depends on: left as is
 		return nil
-	case "sync.Cond", "sync.Map":
+	case "sync.Map":
+		// every operation is a scheduling point (like an atomic); Range iterates in a seeded,
+		// replayable order instead of the runtime's
+		w.count("syncmap")
+		return &ast.CallExpr{Fun: &ast.SelectorExpr{X: w.rt("SyncMap", recv, s("syncmap")), Sel: ast.NewIdent(m)}, Args: call.Args, Ellipsis: call.Ellipsis}
+	case "sync.Cond":
 		fail(call, "%s is not modelled by the simulator runtime", tname)
 	case "time.Timer":
 		switch m {
